@@ -15,7 +15,7 @@ LEVEL = "exploration"
 HASHSEED = "varied"
 RULE = (
     "a corpus of G cases (all families; update ops with forced duplicate coordinates and several vectorised axes; implicit element-wise outputs; flatten groups eligible for CSE; "
-    "solver inputs that are under- or over-determined) is executed under PYTHONHASHSEED in {0,1,2,3,17,4242,12345,random}; per case: value digest (bit-exact for integer/bool data and "
+    "solver inputs that are under- or over-determined; calls that are ill-formed in several ways at once, e.g. a negative and a non-integral keyword size) is executed under PYTHONHASHSEED in {0,1,2,3,17,4242,12345,random}; per case: value digest (bit-exact for integer/bool data and "
     "data-moving ops, rounded to 1e-6 relative otherwise) or exception class, for the first call, a repetition and a recompilation; text of two graph=True requests; "
     "distinct by case; non-trivial if the case has duplicates, an implicit output, or >= 2 tensors"
 )
@@ -105,6 +105,29 @@ def special_corpus(rng, nprng):
             out.append(Plain(op, f"({u} {v}), {u} {v}", [x.reshape(6), x], {u: 2}))
         else:
             out.append(Plain(op, f"{u} {v} 1, {u} {v}", [x[..., None], x]))
+    # calls that are ill-formed in two or more ways at once: which error is reported must not depend on an iteration order
+    # (sets of axis names, dict order derived from a set) and hence not on the hash seed
+    pool = ["a", "b", "c", "p", "q", "m", "n", "zz", "k0", "w", "h", "ab", "x1", "u", "v", "t"]
+    bad_values = [("negative", -1), ("float", 2.5), ("string", "3"), ("zero-dim-float", 1.5), ("negative2", -3), ("contradict", 7)]
+    for _ in range(60):
+        nms = rng.sample(pool, 4)
+        sz = {nm: rng.choice([2, 3]) for nm in nms}
+        x = np.zeros((sz[nms[0]] * sz[nms[1]], sz[nms[2]], sz[nms[3]]))
+        d = f"({nms[0]} {nms[1]}) {nms[2]} {nms[3]} -> {nms[3]} {nms[0]} {nms[1]} {nms[2]}"
+        op = rng.choice(["id", "sum", "max", "id"])
+        if op in ("sum", "max"):
+            d = f"({nms[0]} {nms[1]}) [{nms[2]}] {nms[3]}"
+        kw = dict(sz)
+        for nm in rng.sample(nms, rng.choice([2, 2, 3, 4])):
+            kw[nm] = rng.choice(bad_values)[1]
+        out.append(Plain(op, d, [x], kw, family="multi-defect"))
+    for _ in range(20):
+        nms = rng.sample(pool, 3)
+        # two tensors, each wrong in its own way (a dimension conflict and a rank conflict), plus optionally a bad keyword
+        x = np.zeros((2, 3))
+        y = np.zeros((4, 2, 2))
+        kw = {nms[2]: rng.choice([2.5, -1])} if rng.random() < 0.5 else {}
+        out.append(Plain(rng.choice(["add", "dot", "multiply"]), f"{nms[0]} {nms[1]}, {nms[1]} {nms[0]} -> {nms[0]} {nms[1]} {nms[2]}", [x, y], kw, family="multi-defect"))
     return out
 
 
@@ -148,7 +171,10 @@ def run(spec, out):
         g1 = once(graph=True)
         cache.cache_clear()
         g2 = once(graph=True)
-        nontrivial = case.family == "update" or case.outputs is None or len(case.inputs) > 1
+        if case.family == "multi-defect":
+            out.count("multi_defect_calls")
+            out.count(f"multi_defect_outcome:{d1[:40]}")
+        nontrivial = case.family in ("update", "multi-defect") or case.outputs is None or len(case.inputs) > 1
         if nontrivial:
             out.distinct_key(f"{case.op}|{case.desc()}|{case.in_shapes}")
         cj = {**case.to_json(), "backend": b, "hashseed": spec["hashseed"]}
@@ -193,6 +219,8 @@ def finalize(agg, tier, seed):
                 elif a[1] != b[1] and not a[1].startswith("E:"):
                     agg.counters["graph_text_differs_across_hashseeds"] += 1
     agg.counters["cross_process_comparisons"] = compared
+    if agg.counters.get("multi_defect_calls", 0) < 50:
+        agg.inconclusive.append("fewer than 50 multi-defect calls observed")
     if compared < 100:
         agg.inconclusive.append(f"only {compared} cross-process comparisons")
     return {"cross_process_comparisons": compared, "hash_seeds": [str(s) for s in SEEDS], "graph_text_differs_across_hashseeds": int(agg.counters.get("graph_text_differs_across_hashseeds", 0))}
